@@ -248,11 +248,24 @@ Proof.
     unfold late. unfold aborted, ending in *. destruct (s_res w); apply H; auto.
 Qed.
 
+(* an error report changes nothing in the member *)
+Lemma step_claimerr_state cf w p d : fst (step cf w (IClaimError p d)) = w.
+Proof. cbn [step]. destruct (claims_live w); [|reflexivity]. destruct (claim_find _ _) as [c|]; [destruct (cl_state c)|]; reflexivity. Qed.
+
+Lemma hook_sim_claimerr cf w p d : hside w ->
+  accept hook_step (habs w) (snd (step cf w (IClaimError p d))) = Some (habs (fst (step cf w (IClaimError p d)))) /\ hside (fst (step cf w (IClaimError p d))).
+Proof.
+  intros Hs. rewrite step_claimerr_state. split; [|exact Hs]. cbn [step].
+  destruct (claims_live w) eqn:Hl; [|reflexivity]. destruct (claim_find (s_claims w) p) as [c|] eqn:Hf; [|reflexivity].
+  destruct (cl_state c) eqn:Hc; try reflexivity.
+  rewrite (habs_live w Hl). cbn. rewrite sfind_proj, Hf. cbn. now rewrite Hc.
+Qed.
+
 Lemma hook_sim cf w i : hside w ->
   accept hook_step (habs w) (snd (step cf w i)) = Some (habs (fst (step cf w i))) /\ hside (fst (step cf w i)).
 Proof.
   intros Hs. pose proof Hs as Hs0.
-  destruct i; try (now apply hook_sim_claimgo); try (now apply hook_sim_deliver); try (now apply hook_sim_claimret);
+  destruct i; try (now apply hook_sim_claimgo); try (now apply hook_sim_deliver); try (now apply hook_sim_claimret); try (now apply hook_sim_claimerr);
     try (now apply hook_sim_fetch); try (now apply hook_sim_cleanup); try (now apply hook_sim_commit).
   all: cbn [step]; destruct (w_phase w) eqn:Hph; try (cbn; split; [reflexivity | exact Hs0]).
   all: unfold retry_or, ret.
